@@ -126,6 +126,43 @@ func mutations(r *lib.RNG, base []byte, slots []abi.Slot, nRandom int, allTrunc 
 	return ms
 }
 
+// padStatic inserts unselected static composites (T[k], static tuples) in front
+// of members of the declaration and of its tuples: the decoder skips them
+// without reading and still advances by their size.
+func padStatic(r *lib.RNG, ins []*abi.Ty) []*abi.Ty {
+	n := 0
+	pad := func() *abi.Ty {
+		n++
+		var t *abi.Ty
+		switch r.Intn(3) {
+		case 0:
+			t = mkTy("uint", 256, false, r.Range(2, 4))
+		case 1:
+			t = &abi.Ty{EKind: "tuple", Comps: []*abi.Ty{mkTy("uint", 256, false), mkTy("address", 0, false)}}
+			t.Comps[0].Name, t.Comps[1].Name = fmt.Sprintf("q%da", n), fmt.Sprintf("q%db", n)
+		default:
+			t = mkTy("bytesN", 32, false, 2, 2)
+		}
+		t.Name = fmt.Sprintf("p%d", n)
+		return t
+	}
+	var walk func(list []*abi.Ty, top bool) []*abi.Ty
+	walk = func(list []*abi.Ty, top bool) []*abi.Ty {
+		var out []*abi.Ty
+		for _, t := range list {
+			if t.IsTuple() {
+				t.Comps = walk(t.Comps, false)
+			}
+			if (!top || !t.Indexed) && r.Chance(1, 2) {
+				out = append(out, pad())
+			}
+			out = append(out, t)
+		}
+		return out
+	}
+	return walk(ins, true)
+}
+
 func corpusC10() [][]*abi.Ty {
 	tup := func(dims []int, cs ...*abi.Ty) *abi.Ty { return &abi.Ty{EKind: "tuple", Comps: cs, Dims: dims} }
 	res := [][]*abi.Ty{
@@ -141,6 +178,15 @@ func corpusC10() [][]*abi.Ty {
 		{tup([]int{0}, mkTy("string", 0, true), mkTy("uint", 256, true))},
 		{mkTy("uint", 256, false), mkTy("string", 0, true, 0)},
 		{mkTy("string", 0, true, 0, 2)},
+		// an UNSELECTED static composite (skipped without looking at the input) before
+		// another static member: the caller's own length guard is the only one
+		{mkTy("uint", 256, false, 4), mkTy("uint", 256, true)},
+		{tup([]int{0}, mkTy("uint", 256, true), mkTy("uint", 256, false, 2))},
+		{mkTy("uint", 256, false, 2, 2), mkTy("address", 0, true)},
+		{tup(nil, mkTy("uint", 256, false), mkTy("uint", 256, false)), mkTy("bool", 0, true)},
+		{mkTy("uint", 256, true), mkTy("uint", 256, false, 3), mkTy("uint", 256, true)},
+		{mkTy("address", 0, true), tup(nil, mkTy("uint", 256, false), mkTy("bytesN", 32, false)), mkTy("bool", 0, true)},
+		{tup([]int{2}, mkTy("uint", 256, false, 2), mkTy("uint", 8, true))},
 	}
 	for _, ins := range res {
 		nameAll(ins)
@@ -235,11 +281,16 @@ func runC10(cfg lib.Cfg) error {
 	nCorpus := len(plans)
 	for i := 0; len(plans) < nDecl+nCorpus && i < 50*nDecl; i++ {
 		g := &abi.Gen{R: r.Fork(), MaxDepth: 2, AllowOut: i%5 == 4}
-		d, err := abi.NewDecl(fmt.Sprintf("R%d", i), g.Inputs(true))
+		ins := g.Inputs(true)
+		padded := i%2 == 0
+		if padded {
+			ins = padStatic(g.R, ins)
+		}
+		d, err := abi.NewDecl(fmt.Sprintf("R%d", i), ins)
 		if err != nil {
 			return err
 		}
-		if d.Panic != "" || (d.Root.Depth() == 0 && !d.Root.Dynamic() && i%4 != 0) {
+		if d.Panic != "" || (!padded && d.Root.Depth() == 0 && !d.Root.Dynamic() && i%4 != 0) {
 			continue
 		}
 		add(d, g, "random", maxWords)
